@@ -755,18 +755,19 @@ def pur5(ctx, which=("fold", "order")):
     # ---- iterator chains: parse_phrases, phrases_to_string
     for fpath in ("asca::parse_phrases", "asca::phrases_to_string"):
         fb = ctx.fn(lib, fpath)
-        names = [n["name"] for n in hirq.walk(fb.hir["body"]) if n["e"] == "mcall"]
+        fb_tree = _top_level_inlined(lib, fb)
+        names = [n["name"] for n in hirq.walk(fb_tree) if n["e"] == "mcall"]
         bad = sorted(set(n for n in names if n in ORDER_BREAKING))
         r.inst("%s: iterator chain uses only order- and count-preserving adaptors (%s)" % (fpath, sorted(set(names))), fn_loc(fb),
                "ok" if not bad else "report")
         if bad:
             r.report("PUR-5|%s|adaptor" % fpath, fn_loc(fb), fpath, "adaptor(s) %s can drop, merge or reorder entries" % bad)
-        ex = user_exits(fb.hir["body"])
+        ex = user_exits(fb_tree)
         if ex:
             r.report("PUR-5|%s|exit" % fpath, fn_loc(fb, ex[0]["ln"]), fpath, "early exit inside the per-line conversion")
     # separators: split(' ') on input, + " " per word and trim_end on output
     pp = ctx.fn(lib, "asca::parse_phrases")
-    splits = [n for n in hirq.walk(pp.hir["body"]) if n["e"] == "mcall" and n["name"] == "split"]
+    splits = [n for n in hirq.walk(_top_level_inlined(lib, pp)) if n["e"] == "mcall" and n["name"] == "split"]
     ok = len(splits) == 1 and hirq.strip(splits[0]["args"][0]).get("lit") == " "
     r.inst("parse_phrases splits each line on a single space", fn_loc(pp), "ok" if ok else "report")
     if not ok:
@@ -780,6 +781,12 @@ def pur5(ctx, which=("fold", "order")):
         r.report("PUR-5|phrases_to_string|join", fn_loc(ps), ps.path, "word separator literals are %s, trims %d; expected exactly \" \" and one trim_end" % (lits, len(trims)))
     r.analysed = {"loops": 4, "chains": 2}
     return r
+
+
+def _top_level_inlined(lib, fb):
+    """HIR of a lib.rs driver with the crate-root helper functions it calls (`asca::<name>`) expanded in place"""
+    import re
+    return hirq.inline_helpers(lib, fb, keep={"asca::normalise"}, prefixes=("asca::",), max_depth=2, only_if=lambda cb: re.match(r"^asca::\w+$", cb.path) is not None)
 
 
 def _accumulators(b):
